@@ -49,7 +49,7 @@ def _worker(args):
     out = {"runs": 0, "probes": {}, "faults": {}, "digests_nt": set(), "states": set(),
            "sim_s": 0.0, "failures": [], "errors": [], "det_checked": 0, "det_bad": [],
            "digest_of": {}, "samples": [], "truncated": False, "known_hits": {}, "steps": 0,
-           "trivial": 0}
+           "trivial": 0, "executions": 0}
     want_digest = set(opts.get("want_digest", ()))
     known = opts.get("known", [])
     avoid = [e["trigger"] for e in known if e.get("status") == "known" and e.get("trigger")]
@@ -66,9 +66,10 @@ def _worker(args):
             out["errors"].append({"index": i, "seed": seed, "error": traceback.format_exc(limit=8)})
             continue
         out["runs"] += 1
+        out["executions"] += res.get("executions", 1)
         out["steps"] += res.get("nsteps", 0)
         if res.get("error"):
-            out["errors"].append({"index": i, "seed": seed, "error": res["error"], "plan": p})
+            out["errors"].append({"index": i, "seed": seed, "error": res["error"], "plan": res.get("error_plan") or p})
             continue
         _merge(out["probes"], res["probes"])
         _merge(out["faults"], res["faults"])
@@ -95,7 +96,9 @@ def _worker(args):
             if hit:
                 out["known_hits"][hit] = out["known_hits"].get(hit, 0) + 1
             elif len(out["failures"]) < 3:
-                out["failures"].append({"index": i, "seed": seed, "plan": p, "violation": res["violation"]})
+                v = dict(res["violation"])
+                fp = v.pop("concrete_plan", None) or p
+                out["failures"].append({"index": i, "seed": seed, "plan": fp, "violation": v})
         if det_every and i % det_every == 0:
             res2 = mod.run_plan(planmod.clone(p))
             out["det_checked"] += 1
@@ -246,7 +249,7 @@ def main(mod, argv=None):
     chunks = [c for c in chunks if c]
     agg = {"runs": 0, "probes": {}, "faults": {}, "digests_nt": set(), "states": set(), "sim_s": 0.0,
            "failures": [], "errors": [], "det_checked": 0, "det_bad": [], "digest_of": {},
-           "samples": [], "truncated": False, "known_hits": {}, "steps": 0, "trivial": 0}
+           "samples": [], "truncated": False, "known_hits": {}, "steps": 0, "trivial": 0, "executions": 0}
     ctx = multiprocessing.get_context("fork")
     try:
         with ProcessPoolExecutor(max_workers=jobs, mp_context=ctx) as ex:
@@ -255,6 +258,7 @@ def main(mod, argv=None):
                 o = f.result()
                 agg["runs"] += o["runs"]
                 agg["steps"] += o["steps"]
+                agg["executions"] += o["executions"]
                 agg["trivial"] += o["trivial"]
                 _merge(agg["probes"], o["probes"])
                 _merge(agg["faults"], o["faults"])
@@ -362,6 +366,7 @@ def main(mod, argv=None):
                 "runs_per_hour": int(agg["runs"] / wall * 3600) if wall > 0 else 0,
                 "simulated_seconds": round(agg["sim_s"], 3),
                 "operations_executed": agg["steps"],
+                "executions_including_enumerated_fault_variants": agg["executions"],
                 "faults_fired": dict(sorted(agg["faults"].items())),
                 "probes_hit": dict(sorted(agg["probes"].items())),
                 "probes_never_hit": zero_probes,
